@@ -73,6 +73,15 @@ theorem average_is_mean (found : List (GRec ℚ)) (p : String) :
   simp only [psum_scale, h1, h2, h3, h4, h5, h6]
   simp [psum, k]
 
+theorem foldl_add_eq (xs : List ℚ) (z : ℚ) : xs.foldl (fun a x => a + x) z = z + xs.sum := by
+  induction xs generalizing z with
+  | nil => simp
+  | cons x xs ih => simp [ih, add_assoc]
+
+/-- the averaged buried fraction, atom counts … are arithmetic means over the conformations that contain the group -/
+theorem scalar_average_is_mean (xs : List ℚ) : avgScalar 0 xs = xs.sum / xs.length := by
+  unfold avgScalar; rw [foldl_add_eq]; simp
+
 /-- **A single conformation is reported as it is.** -/
 theorem single_conformation_identity (g : GRec ℚ) (p : String) :
     (average 0 [g]).pka = g.pka ∧ (average 0 [g]).evol = g.evol ∧ (average 0 [g]).eloc = g.eloc ∧
